@@ -288,11 +288,14 @@ def _doc(draw, id_mode: str):
 @st.composite
 def _case(draw, modes=("plain", "plain", "plain", "keywords", "module_names", "session")):
     mode = draw(st.sampled_from(list(modes)))
+    overwrite = mode == "session_overwrite"
+    if overwrite:
+        mode = "session"
     doc = draw(_doc("plain" if mode == "session" else mode))
     case = {"mode": mode, "doc": doc, "amounts": [draw(st.sampled_from([0.4, 0.8, 1.3, 2.2, 3.5])) for _ in doc["species"]], "time": draw(st.sampled_from([0.0, 0.7, 2.0]))}
     if mode == "session":
         case["doc2"] = draw(_doc("plain"))
-        case["stems"] = draw(st.sampled_from([["Model-1", "model_1"], ["net.v2", "netv2"], ["same", "same"], ["My Model", "my-model"], ["overwritten", "overwritten"]]))
+        case["stems"] = ["overwritten", "overwritten"] if overwrite else draw(st.sampled_from([["Model-1", "model_1"], ["net.v2", "netv2"], ["same", "same"], ["My Model", "my-model"]]))
         case["same_path"] = case["stems"][0] == "overwritten"
     return case
 
@@ -308,6 +311,7 @@ def strategies(tier: str):
         ("keywords", _case(modes=("keywords",)), 25 * f),
         ("module_names", _case(modes=("module_names",)), 25 * f),
         ("session", _case(modes=("session",)), 30 * f),
+        ("session_overwrite", _case(modes=("session_overwrite",)), 12 * f),
     ]
 
 
